@@ -262,3 +262,5 @@ func VerifC14_Concat() {
 	vrt.Assert(vrt.SameBits(float64(q.Value), float64(p.Value)), "C14.concat point value")
 	vrt.Assert(e == d, "C14.concat duration")
 }
+
+func vrtAsWant(err error, target **WantLargerBufferError) bool { return errors.As(err, target) }
